@@ -33,11 +33,12 @@ type SessScript struct {
 
 // Sess is the interpreter state for a SessScript.
 type Sess struct {
-	Cfg   SessCfg
-	W     *sim.World
-	Obs   *ref.Observer
-	nDraw [2]int
-	nText int
+	Faults int // randomness faults armed so far
+	Cfg    SessCfg
+	W      *sim.World
+	Obs    *ref.Observer
+	nDraw  [2]int
+	nText  int
 	// texts passed to Send, per party, with the state they were sent in
 	Texts [2][]*SentText
 	// every observed message emitted by the parties, in order
@@ -234,6 +235,20 @@ func (s *Sess) Exec(op SOp) *sim.Call {
 	w := s.W
 	who := op.W & 1
 	switch op.K {
+	case "fault":
+		// the next read of this party's randomness source fails, once (error, or a short read and an error)
+		p := w.P[who]
+		p.R.FailAt, p.R.FailFor, p.R.FailMode = p.R.Reads()+op.X%16, 1, op.I%2
+		s.Faults++
+	case "faultsess":
+		// one read of this party's source fails somewhere inside the key exchange that follows
+		p := w.P[who]
+		p.R.FailAt, p.R.FailFor, p.R.FailMode = p.R.Reads()+op.X%16, 1, op.I%2
+		s.Faults++
+		w.AgeClock(0, 3*time.Minute)
+		w.AgeClock(1, 3*time.Minute)
+		w.Query((op.I >> 1) & 1)
+		s.Exec(SOp{K: "flush"})
 	case "send":
 		return s.Send(who, s.Text(who, capLen(op.L, s.Cfg.V, s.frag(who)), op.F)).Call
 	case "dl":
@@ -365,6 +380,9 @@ func genSOp(t *rapid.T, kinds []string, maxLen int) SOp {
 		}
 	case "smp", "ans":
 		op.X = rapid.IntRange(0, 7).Draw(t, "x")
+	case "fault", "faultsess":
+		op.X = rapid.IntRange(0, 15).Draw(t, "skip")
+		op.I = rapid.IntRange(0, 3).Draw(t, "mode")
 	case "xk":
 		op.X = rapid.IntRange(0, 1<<16).Draw(t, "x")
 		op.S = rapid.SampledFrom([]string{"", "file-transfer", "\x00\x01"}).Draw(t, "s")
